@@ -344,6 +344,82 @@ theorem immutable_runR_frozen (bound dh : Bool) (tbl : List MethodRec) (O : Orac
     rw [immutable_runR_frozen bound dh tbl O c fields hi htbl rest]
     exact immutable_stepR_state bound dh tbl O c fields st op hi htbl
 
+/-- operations that attempt a mutation (taking a reference does not) -/
+def Attempt : ROp → Bool
+  | .take _ => false
+  | _ => true
+
+/-- **C04 (every direct attempt raises)**: on an ImmutableStructure, with nested wrappers bound to
+    their parent (the tree since cbf3b48), EVERY mutation attempt — assignment, deletion, a mutator
+    of a field value, of a nested wrapper at any depth, of a kept reference, handing a kept reference
+    back — raises (and, by `immutable_stepR_state`, changes nothing) -/
+theorem immutable_stepR_raises (dh : Bool) (tbl : List MethodRec) (O : Oracles) (c : ClassOpts)
+    (fields : List (String × FieldDecl)) (st : MState) (op : ROp)
+    (hi : c.immutable = true) (htbl : tbl.all (fun r => r.guarded) = true) (ha : Attempt op = true) :
+    ∃ e, (stepR true dh tbl O c fields st op).2 = .err e := by
+  have hg : GuardedTbl tbl = true := by
+    unfold GuardedTbl; rw [List.all_eq_true]; intro r hr
+    have h1 : r.guarded = true := (List.all_eq_true.mp htbl) r hr
+    show (r.guarded || r.validated) = true
+    rw [h1]; rfl
+  cases op with
+  | take f => simp [Attempt] at ha
+  | assignRef f i =>
+    simp only [stepR]
+    split
+    · exact ⟨_, rfl⟩
+    · rename_i w _
+      split
+      · exact ⟨_, rfl⟩
+      · show ∃ e, (setattrStep O c fields st.attrs f w.payload).2 = .err e
+        rw [setattr_immutable O c fields st.attrs f w.payload hi]; exact ⟨_, rfl⟩
+  | callRef i m =>
+    simp only [stepR]
+    split
+    · exact ⟨_, rfl⟩
+    · rename_i w _
+      split
+      · exact ⟨_, rfl⟩
+      · rename_i r hfind
+        have hrg : r.guarded = true := (List.all_eq_true.mp htbl) r (findRec_mem tbl w.kind m.name r hfind)
+        show ∃ e, (refCallStep O c fields st.attrs w.field w.kind r m w.payload).2 = .err e
+        unfold refCallStep
+        split
+        · simp [hrg, hi]
+        · rcases call_immutable O c fields st.attrs w.field w.kind r m w.payload hi
+            ((List.all_eq_true.mp hg) r (findRec_mem tbl w.kind m.name r hfind)) with ⟨e, he⟩
+          rw [he]; exact ⟨e, rfl⟩
+  | plain o =>
+    simp only [stepR]
+    cases o with
+    | setattr f v =>
+      show ∃ e, (setattrStep O c fields st.attrs f v).2 = .err e
+      rw [setattr_immutable O c fields st.attrs f v hi]; exact ⟨_, rfl⟩
+    | delitem f =>
+      show ∃ e, (delitemStepH dh O c st.attrs f).2 = .err e
+      unfold delitemStepH
+      rw [delitem_immutable c st.attrs f hi]
+      cases dh <;> exact ⟨_, rfl⟩
+    | call f m =>
+      rcases immutable_step_frozen tbl O c fields st.attrs (.call f m) hi hg rfl with ⟨e, he⟩
+      show ∃ e, (step tbl O c fields st.attrs (.call f m)).2 = .err e
+      rw [he]; exact ⟨e, rfl⟩
+    | callNested f k m =>
+      simp only [stepB]
+      split
+      · split
+        · split
+          · exact ⟨_, rfl⟩
+          · rename_i kind _
+            split
+            · exact ⟨_, rfl⟩
+            · rename_i r hfind
+              rcases nestedBound_immutable O c fields st.attrs f k kind r m _ _ hi
+                ((List.all_eq_true.mp hg) r (findRec_mem tbl kind m.name r hfind)) with ⟨e, he⟩
+              rw [he]; exact ⟨e, rfl⟩
+        · exact ⟨_, rfl⟩
+      · exact ⟨_, rfl⟩
+
 /-- every mutator row checks `_raise_if_immutable()` itself (needed for wrappers that do not reach
     the owning field's own check: scratch-bound nested wrappers) -/
 def AllGuardedTbl (tbl : List MethodRec) : Bool := tbl.all (fun r => r.guarded)
